@@ -192,5 +192,21 @@ def run(chk):
                 chk.violation("altered|filter-output|" + ">".join(l[0] for l in pkt.decode(fr)[-2:]),
                               "filter-mode output record %d differs from the captured bytes (%d records out, %d in)" % (k, len(out_recs), len(want)),
                               {"script": script, "frame_hex": fr.hex(), "written_hex": out_recs[k][4].hex() if k < len(out_recs) else None})
+        # ---- a write of a decoded packet that fails leaves no trace in what later writes of decoded packets produce
+        src3 = os.path.join(work, "iso-src.pcap")
+        frs = [pkt.rand_frame(rng, well_formed=True)[0] for _ in range(4)]
+        with open(src3, "wb") as f:
+            f.write(pkt.pcap_file([(k + 1, k, fr) for k, fr in enumerate(frs)]))
+        good = os.path.join(work, "iso-good.pcap")
+        raw = os.path.join(work, "iso-good.bin")
+        setup = ["let ps = pcap_read_all(pcap_open(%s)); let i = 0; while i < len(ps) { ps[i].eth; ps[i].eth.type; i = i + 1; }" % lit(src3)]
+        probes = ["let o = pcap_open(%s, \"w\"); let w = open(%s, \"w\"); let k = 0; while k < len(ps) { pcap_write(o, ps[k]); write(w, ps[k]); k = k + 1; } flush(w); puts(len(ps));" % (lit(good), lit(raw))]
+        iso = []
+        for tag, failing in (("reader-handle", ["let rd = pcap_open(%s); puts(is_error(pcap_write(rd, ps[1])));" % lit(src3)]),
+                             ("full-device", ["let fd = pcap_open(\"/dev/full\", \"w\"); let j = 0; while j < 400 { if is_error(pcap_write(fd, ps[j % 4])) { break; } j = j + 1; } puts(j < 400);"]),
+                             ("write-to-reader", ["puts(is_error(write(open(%s), ps[2])));" % lit(src3)]),
+                             ("full-device-write", ["let ff = open(\"/dev/full\", \"w\"); let j = 0; while j < 400 { if is_error(write(ff, ps[j % 4])) { break; } j = j + 1; } flush(ff);"])):
+            iso.append((tag, setup, failing, probes, [good, raw]))
+        core.isolation_after_errors(chk, "serialise", iso)
     finally:
         shutil.rmtree(work, ignore_errors=True)
